@@ -152,7 +152,7 @@ Section Trace.
     pose proof (inv_steps T teqb hc teqb_spec _ _ Hinv Hs1) as Hinv1.
     cbv zeta in Hc. set (b1 := forget_replaced hc b ress) in *.
     assert (blob_ok w1 b1) as Hb1.
-    { unfold b1. apply InvProofs.forget_replaced_ok; [apply Hinv1|].
+    { unfold b1. apply InvProofs.forget_replaced_ok; [exact teqb_spec|].
       exact (blob_steps T teqb hc teqb_spec _ _ _ Hinv Hs1 Hb). }
     assert (map fst b1 = map fst b) as Hfst1 by apply C01Hist.forget_replaced_fst.
     destruct (needs_rebuild ress) eqn:Enr.
@@ -282,7 +282,7 @@ Section Trace.
     destruct (take_blob T hc (rs_table T st) (n_targets n)) as [b t'] eqn:Etb.
     pose proof (C01Build.take_blob_fst T hc _ _ _ _ Etb) as Hfst.
     assert (clock_ok teqb wc) as Hk by apply Hinv.
-    destruct (InvProofs.take_blob_ok T teqb hc _ _ _ _ _ Hk Htbl Etb) as [Hb _].
+    destruct (InvProofs.take_blob_ok T teqb hc teqb_spec _ _ _ _ _ Htbl Etb) as [Hb _].
     fold wc.
     destruct (read_history T teqb hr wc (n_rule n)) as [h|] eqn:Erh; [|discriminate].
     destruct (all_some (map (received T (rs_leaf_sent T st) (rs_node_sent T st)) (n_source_indices n)))
